@@ -29,21 +29,24 @@ def plan(tier, seed):
 
 
 def unit_timeout(tier):
-    return 60 if tier == "quick" else 400
+    return 45 if tier == "quick" else 400
 
 
 def floors(tier):
     n = N_PROG[tier]
     return {"evals": n * 6, "distinct": max(2, n // 4),
             "counters": {"sensor_jacobian_evaluated": n * 2, "process_jacobian_evaluated": n * 2,
-                         "rectangular_sensor_jacobians": n // 2}}
+                         "rectangular_sensor_jacobians": n // 2, "linear_in_state_programs": n // 5}}
 
 
 def setup_worker(ctx):
     monitors.install_python_hooks()
 
 
-def gen_defn(rng, tier):
+def gen_defn(rng, tier, i=0):
+    if i % 4 == 3:
+        return gen.linear_in_state_program(rng, n_state=(2, 4), n_control=(1, 3), n_calib=(0, 2), n_sensor=(1, 2),
+                                           n_reading=(1, 3), depth=1, n_shared=(0, 0))
     return gen.program(rng, n_state=(1, 5), n_control=(0, 3), n_calib=(0, 3), n_sensor=(1, 3),
                        n_reading=(1, 4), depth=2 if rng.random() < 0.6 else 3, n_shared=(0, 2))
 
@@ -57,7 +60,9 @@ def rectangular(defn):
 def run_unit(unit, ctx):
     R = K.Result()
     rng = K.unit_rng(ID, ctx["seed"], unit)
-    defn = gen_defn(rng, ctx["tier"])
+    defn = gen_defn(rng, ctx["tier"], unit["i"])
+    if defn.get("family") == "linear_in_state":
+        R.stats.inc("linear_in_state_programs")
     fp = gen.fingerprint(defn)
     R.fps_all.append(fp)
     if rectangular(defn):
@@ -73,8 +78,14 @@ def run_unit(unit, ctx):
         return R.out()
     ectx = monitors.EkfCtx(defn)
     n, k = len(defn["state"]), len(defn["calibration"])
+    prev_dt = None
     for pi in range(N_POINTS[ctx["tier"]]):
         pt = gen.point(rng, defn)
+        # consecutive evaluations on the same filter object: sometimes the same dt with other state /
+        # control values, sometimes the same state with another dt (state carried between calls shows here)
+        if prev_dt is not None and pi % 2 == 1:
+            pt[defn["dt"]] = prev_dt
+        prev_dt = pt[defn["dt"]]
         st = ekf.State(**{s: pt[s] for s in defn["state"]})
         ct = ekf.Control(**{c: pt[c] for c in defn["control"]})
         dt = float(pt[defn["dt"]])
